@@ -61,6 +61,7 @@ struct FaultBox
   int grant_refuse = 0; // next grant/deny says success=false
   bool refuse_echoes_pointer = false; // ... and hands back the caller's pointer unchanged (the result is meaningless without success)
   int lookup_fail = 0; // next symbol lookup fails (abort)
+  int unregister_fail = 0; // next impl_unregister_callback refuses (abort) and leaves the entry in place
   void clear() { *this = FaultBox(); }
 };
 inline thread_local FaultBox g_fault;
@@ -250,7 +251,11 @@ class rlbox_sim_sandbox
 public:
   using T_LongLongType = int64_t;
   using T_LongType = int32_t;
+#ifdef SIM_WIDE_INT
+  using T_IntType = int64_t; // a guest whose int is wider than the application's (world `abi`)
+#else
   using T_IntType = int32_t;
+#endif
 #ifdef SIM_PTR_AS_POINTER
   // the representation has a C++ pointer type (as in the bundled noop/dylib plug-ins) but is NOT the host address:
   // it still carries the offset into the region
@@ -670,6 +675,13 @@ protected:
     SIM_YIELD("impl_unregister");
     RLBOX_ACQUIRE_UNIQUE_GUARD(lock, table_lock);
     n_unregs++;
+    if (sim::g_fault.unregister_fail > 0) {
+      sim::g_fault.unregister_fail--;
+      if (sim::g_ctx)
+        sim::g_ctx->fired("F13_backend_refuses_unregistration");
+      sim::bev("backend unregister inst=%d -> REFUSED (injected)", inst_id);
+      detail::dynamic_check(false, "sim backend: entry point is in use, cannot unregister now");
+    }
     for (size_t i = (size_t)first_slot; i < table.size(); i++) {
       // entries are kept per guest signature (as plug-ins with one trampoline pool per signature do): a request made
       // with another signature than the registration's does not find the entry
